@@ -147,6 +147,8 @@ def classify_crash(text):
     kind = "panic"
     if "blocked goroutines remain" in head or "deadlock: main bubble goroutine" in head:
         kind = "goroutine_leak"
+    elif head.startswith("fatal error: VERIF-STALL"):
+        kind = "lock_stall"
     elif head.startswith("fatal error"):
         kind = "fatal"
     where = "unknown"
